@@ -426,10 +426,22 @@ class Call:
         # same args/kwargs should be considered same as an unnamed call of the
         # same Task with the same args/kwargs (e.g. pre/post task specified w/o
         # name). Ditto tasks with multiple aliases.
-        for attr in "task args kwargs".split():
-            if getattr(self, attr) != getattr(other, attr):
-                return False
-        return True
+        if not isinstance(other, Call) or self.task != other.task:
+            return False
+        # Compare the arguments the task body would actually receive, so that
+        # e.g. an explicit kwarg equal to the parameter's default, or a value
+        # given positionally vs. by keyword, counts as the same invocation.
+        return self._effective_arguments() == other._effective_arguments()
+
+    def _effective_arguments(self) -> Any:
+        try:
+            sig = inspect.signature(self.task.body)
+            bound = sig.bind_partial(None, *self.args, **self.kwargs)
+            bound.apply_defaults()
+            # NOTE: the leading placeholder stands for the context argument.
+            return (bound.args[1:], bound.kwargs)
+        except (TypeError, ValueError):
+            return (self.args, self.kwargs)
 
     def make_context(self, config: "Config") -> Context:
         """
